@@ -77,6 +77,13 @@ Theorem c07_clear_context_cancels_all : forall delay script es restart i x,
 Proof. intros dl sc es restart i x s Hk Hx. exact (clear_context_cancels_all s restart (run_W dl sc es) Hk i x Hx). Qed.
 Print Assumptions c07_clear_context_cancels_all.
 
+(* ... and while the container has no context nothing is started, whatever is called (only SetContext with a context
+   starts routines again) *)
+Theorem c07_no_context_nothing_started : forall s e,
+  kctx s = 0 -> (forall c r, e = ESetCtx c r -> c = 0) -> length (insts (step repaired s e)) = length (insts s).
+Proof. exact no_context_no_spawn. Qed.
+Print Assumptions c07_no_context_nothing_started.
+
 (* calls that do not restart leave the pending retry alone (defect D7 repaired): SetKey(start=false) and one kept key
    of SyncKeys(restart=false) keep the record's retry timer, back-off index and exit status, start nothing, and touch
    no timer except the record's pending removal; GetKeys/GetKey/GetKeysWithData do not change the state at all *)
